@@ -411,6 +411,14 @@ static void script_vm(const std::vector<std::string>& t, bool dual_alloc, bool j
           else r = 2;
           break;
         }
+        case 'q':   // q<i>  JitAllocator::query(span i): a look-up, touches nothing
+          if (jit_kind && arg < spans.size() && spans[arg]) { JitAllocator::Span sp; r = err_code(al.query(Out(sp), spans[arg])); }
+          else r = 2;
+          break;
+        case 'r':   // r0 / r1  JitAllocator::reset(kSoft / kHard): every span is gone afterwards
+          if (jit_kind) { al.reset(arg ? ResetPolicy::kHard : ResetPolicy::kSoft); for (auto& sp : spans) sp = nullptr; }
+          else r = 2;
+          break;
         default: r = 2; break;
       }
       F.armed = false;
@@ -527,6 +535,56 @@ static void script_str(const std::vector<std::string>& t) {
   printf("%s\n", out.c_str());
 }
 
+// S arena <mask> <ops...>   a<n> Arena::alloc_oneshot(n), n a positive multiple of 8   r0 / r1 reset(soft / hard)
+//                            mask: none | h:<pattern> on the heap requests (malloc of a new block)
+static void script_arena(const std::vector<std::string>& t) {
+  std::string out = "S arena";
+  long nheap = 0;
+  long h0 = F.live_heap;
+  {
+    Arena arena(1024);
+    long hbase = F.live_heap;
+    F.reset_counters();
+    const std::string& m = t[2];
+    if (m == "none") F.mode = FM_NONE;
+    else if (m.size() > 2 && m[0] == 'h' && m[1] == ':' && parse_pattern(m.c_str() + 2)) F.mode = FM_HEAP;
+    else { printf("BAD mask\n"); return; }
+    std::vector<std::pair<uint8_t*, size_t>> regs;      // what was handed out since the last reset
+    for (size_t i = 3; i < t.size(); i++) {
+      const char* s = t[i].c_str();
+      size_t n = size_t(strtoul(s + 1, nullptr, 10));
+      int r = 0;
+      bool overlap = false;
+      F.armed = true;
+      switch (s[0]) {
+        case 'a': {
+          uint8_t* p = static_cast<uint8_t*>(arena.alloc_oneshot(n));
+          F.armed = false;
+          if (!p) { r = 1; break; }
+          for (auto& g : regs) if (p < g.first + g.second && g.first < p + n) overlap = true;
+          memset(p, 0xA5, n);                            // ASan sees a region that is not inside a live block
+          regs.push_back({p, n});
+          break;
+        }
+        case 'r': arena.reset(n ? ResetPolicy::kHard : ResetPolicy::kSoft); regs.clear(); break;
+        default: r = 2; break;
+      }
+      F.armed = false;
+      char buf[96];
+      snprintf(buf, sizeof(buf), " %d/%zu/%ld", r, arena.remaining_size(), F.live_heap - hbase);
+      out += buf;
+      if (overlap) out += "!overlap";
+    }
+    nheap = F.n_heap;
+    F.mode = FM_NONE;
+  }
+  char tail[64];
+  snprintf(tail, sizeof(tail), " | end %ld", F.live_heap - h0);
+  out += tail;
+  out += " req=0," + std::to_string(nheap);
+  printf("%s\n", out.c_str());
+}
+
 static void run_script(const std::vector<std::string>& t) {
   if (t.size() < 3) { printf("BAD script\n"); return; }
   if (t[1] == "vec" && t.size() >= 4) {
@@ -542,6 +600,7 @@ static void run_script(const std::vector<std::string>& t) {
   else if (t[1] == "builder") script_builder(t);
   else if (t[1] == "ra") script_ra(t);
   else if (t[1] == "str") script_str(t);
+  else if (t[1] == "arena") script_arena(t);
   else if (t[1] == "vm") script_vm(t, false);
   else if (t[1] == "vmd") script_vm(t, true);
   else if (t[1] == "jit") script_vm(t, false, true);
